@@ -2052,7 +2052,7 @@ def run(ctx):
 
     # ---- several handlers alive in one scenario, the same instances on several of them, failing exports in between
     hs = scripted_handlers()
-    n = ctx.scale(quick=16, thorough=200)
+    n = ctx.scale(quick=16, thorough=120)
     for i in range(n):
         base = FIXED_UNIVERSE if i % 2 == 0 else FIXED_UNIVERSE_2
         uni = sorted(set(rng.sample(base, rng.randrange(3, 7)) + (['/'] if i % 3 == 0 else [])))
